@@ -102,7 +102,7 @@ class Loop:
 class Contract:
     def __init__(self, qualname, params=None, returns=None, requires=(), ensures=(), modifies=(),
                  raises=None, loops=None, tags=(), inline=False, locals_=None, old=None,
-                 pure=False, self_type=None, raises_ensures=None, note="", of=None, lemmas=()):
+                 pure=False, self_type=None, raises_ensures=None, note="", of=None, lemmas=(), frame_when=None):
         self.qualname = qualname
         self.params = params or {}          # {param: type-string}
         self.returns = returns              # type-string or None
@@ -119,6 +119,7 @@ class Contract:
         self.self_type = self_type
         self.note = note
         self.namespace = None
+        self.frame_when = dict(frame_when or {})   # {condition on the entry state: [paths listed in modifies that are NOT assigned then]}
         self.lemmas = tuple(lemmas)   # names of opt-in lemmas (builders marked opt_in) this function's proof may use
         self.of = of              # a variant 'qualname#tag' verifies the source of `of` under different parameter types
 
